@@ -5,6 +5,8 @@
 #   struct Pair { 1: string name, 2: i32 n, 3: optional binary blob,
 #                 4: list<i32> nums, 5: map<string,string> kv }
 #   exception VerifError { 1: string why, 2: i32 code }
+#   exception OtherError { 1: string detail, 2: i64 n }
+#   exception ThirdError { 1: string tag }
 #
 from thrift.Thrift import TType, TException
 from thrift.protocol.TBase import TBase, TExceptionBase
@@ -57,6 +59,54 @@ VerifError.thrift_spec = (
     None,  # 0
     (1, TType.STRING, 'why', 'UTF8', None, ),  # 1
     (2, TType.I32, 'code', None, None, ),  # 2
+)
+
+
+class OtherError(TExceptionBase):
+    __slots__ = ('detail', 'n')
+
+    def __init__(self, detail=None, n=None):
+        self.detail = detail
+        self.n = n
+
+    def __str__(self):
+        return repr(self)
+
+    def __repr__(self):
+        return 'OtherError(detail=%r, n=%r)' % (self.detail, self.n)
+
+    def __hash__(self):
+        return hash((self.detail, self.n))
+
+
+all_structs.append(OtherError)
+OtherError.thrift_spec = (
+    None,  # 0
+    (1, TType.STRING, 'detail', 'UTF8', None, ),  # 1
+    (2, TType.I64, 'n', None, None, ),  # 2
+)
+
+
+class ThirdError(TExceptionBase):
+    __slots__ = ('tag',)
+
+    def __init__(self, tag=None):
+        self.tag = tag
+
+    def __str__(self):
+        return repr(self)
+
+    def __repr__(self):
+        return 'ThirdError(tag=%r)' % (self.tag,)
+
+    def __hash__(self):
+        return hash(self.tag)
+
+
+all_structs.append(ThirdError)
+ThirdError.thrift_spec = (
+    None,  # 0
+    (1, TType.STRING, 'tag', 'UTF8', None, ),  # 1
 )
 fix_spec(all_structs)
 del all_structs
